@@ -392,6 +392,68 @@ class Ctx(object):
         return 1 if self.violations else 0
 
 
+def _isolated_child(func, job, conn, mem_gb):
+    try:
+        if mem_gb:
+            import resource
+            lim = int(mem_gb * 2 ** 30)
+            resource.setrlimit(resource.RLIMIT_AS, (lim, lim))
+        conn.send(("ok", func(job)))
+    except BaseException as e:          # MemoryError included
+        try:
+            conn.send(("err", "%s: %s" % (type(e).__name__, str(e)[:200])))
+        except Exception:
+            pass
+    finally:
+        conn.close()
+
+
+def map_isolated(func, jobs, workers=16, timeout=600, mem_gb=8, on_fail=None):
+    """func(job) for every job, each in a process of its own (fork), at most `workers` at a time, with a wall-clock
+    and an address-space limit.  A job whose process dies, runs out of memory or time gives on_fail(job, why)
+    instead of breaking the whole pool - the real code under a seeded change may do any of these."""
+    import multiprocessing as mp
+    ctxm = mp.get_context("fork")
+    results = [None] * len(jobs)
+    pending = list(enumerate(jobs))[::-1]
+    running = {}
+    while pending or running:
+        while pending and len(running) < workers:
+            i, job = pending.pop()
+            parent, child = ctxm.Pipe(duplex=False)
+            pr = ctxm.Process(target=_isolated_child, args=(func, job, child, mem_gb))
+            pr.start()
+            child.close()
+            running[i] = (pr, parent, time.time(), job)
+        done = []
+        for i, (pr, parent, t0, job) in running.items():
+            why = None
+            if parent.poll(0):
+                try:
+                    kind, val = parent.recv()
+                    if kind == "ok":
+                        results[i] = val
+                    else:
+                        why = val
+                except (EOFError, OSError):
+                    why = "worker died"
+                done.append((i, why))
+            elif not pr.is_alive():
+                done.append((i, "worker died (exit code %s)" % pr.exitcode))
+            elif time.time() - t0 > timeout:
+                pr.kill()
+                done.append((i, "no result after %d s" % timeout))
+        for i, why in done:
+            pr, parent, t0, job = running.pop(i)
+            pr.join(5)
+            parent.close()
+            if why is not None:
+                results[i] = on_fail(job, why) if on_fail else None
+        if not done:
+            time.sleep(0.02)
+    return results
+
+
 def load_known_findings():
     p = os.path.join(VERIF, "known_findings.json")
     if not os.path.exists(p):
